@@ -1,0 +1,58 @@
+//! Verification hooks, only compiled with the cargo feature `verif_hooks`.
+//!
+//! Nothing in here changes the behaviour of the crate, the module only makes
+//! internal quantities of the encodation planner and the data decoder
+//! observable for external property checks.
+use core::cell::Cell;
+
+/// Statistics about the most recent call of the encodation planner on this thread.
+#[derive(Debug, Clone, Copy, Default, PartialEq, Eq)]
+pub struct PlanStats {
+    /// Number of `Plan::step` calls executed.
+    pub steps: usize,
+    /// Number of iterations of the planner's main loop.
+    pub iterations: usize,
+    /// Maximum number of candidate plans alive after pruning.
+    pub max_live: usize,
+    /// Maximum number of candidate plans before pruning.
+    pub max_before_prune: usize,
+    /// Cost of the selected plan in whole codewords (rounded up), without `written`.
+    pub chosen_cost: Option<usize>,
+    /// Number of codewords already written when the planner was started.
+    pub written: usize,
+    /// Length of the input given to the planner.
+    pub input_len: usize,
+    /// Number of planner calls on this thread since the last reset.
+    pub calls: usize,
+}
+
+std::thread_local! {
+    static STATS: Cell<PlanStats> = Cell::new(PlanStats {
+        steps: 0,
+        iterations: 0,
+        max_live: 0,
+        max_before_prune: 0,
+        chosen_cost: None,
+        written: 0,
+        input_len: 0,
+        calls: 0,
+    });
+}
+
+/// Statistics of the last planner run on the current thread.
+pub fn last_plan_stats() -> PlanStats {
+    STATS.with(|s| s.get())
+}
+
+/// Reset the statistics (including the call counter).
+pub fn reset_plan_stats() {
+    STATS.with(|s| s.set(PlanStats::default()));
+}
+
+pub(crate) fn update(f: impl FnOnce(&mut PlanStats)) {
+    STATS.with(|s| {
+        let mut v = s.get();
+        f(&mut v);
+        s.set(v);
+    })
+}
